@@ -14,7 +14,7 @@ from vlib import MachineryError, REPO
 
 def corrupt(case, rnd):
     # a case the spec classifies "no-panic" that visibly succeeds is turned into "must-error": must be rejected
-    if case.get('expect') != 'no-panic' or case.get('site') not in ('int', 'pow', 'ofs', 'ors', 'subscript'):
+    if case.get('expect') != 'no-panic' or case.get('site') not in ('int', 'pow', 'ofs', 'ors', 'subscript', 'field-values', 'recursion-with-locals'):
         return None
     c = copy.deepcopy(case)
     c['expect'] = 'must-error'
